@@ -243,4 +243,45 @@ example : runRangeFrom (intStep 0 255) 252 3 = some [252, 253, 254] := by decide
 example : runRangeFrom (intStep 0 255) 254 2 = none := by decide
 example : runRangeFrom charStep 0xD7FE 3 = some [0xD7FE, 0xD7FF, 0xE000] := by decide
 
+
+/-- **forRange_eq.** `for_range!{x in a..b => ..}` binds exactly the values of `a..b` in order — for every
+    pair of bounds, inverted and empty ranges included (then the body never runs). -/
+theorem forRange_eq (a b : Int) : ∀ (fuel : Nat), (rangeList a b).length ≤ fuel →
+    forRange a b fuel = rangeList a b := by
+  have hlen : ∀ x y : Int, (rangeList x y).length = (y - x).toNat := by
+    intro x y; simp [rangeList]
+  have hnil : ∀ x y : Int, ¬ x < y → rangeList x y = [] := by
+    intro x y h
+    have : (y - x).toNat = 0 := by omega
+    simp [rangeList, this]
+  have hcons : ∀ x y : Int, x < y → rangeList x y = x :: rangeList (x + 1) y := by
+    intro x y h
+    unfold rangeList
+    obtain ⟨n, hn⟩ : ∃ n : Nat, (y - x).toNat = n + 1 := ⟨(y - x).toNat - 1, by omega⟩
+    have hn' : (y - (x + 1)).toNat = n := by omega
+    rw [hn, hn', List.range_succ_eq_map, List.map_cons, List.map_map]
+    simp only [Int.cast_ofNat_Int, Int.add_zero, List.cons.injEq, true_and]
+    apply List.map_congr_left
+    intro i _
+    simp only [Function.comp]
+    omega
+  intro fuel
+  induction fuel generalizing a with
+  | zero =>
+    intro h
+    have : rangeList a b = [] := List.eq_nil_of_length_eq_zero (by omega)
+    simp [forRange, this]
+  | succ f ih =>
+    intro h
+    simp only [forRange]
+    by_cases hab : a < b
+    · rw [if_pos hab, hcons a b hab]
+      congr 1
+      apply ih
+      rw [hlen] at h ⊢
+      omega
+    · rw [if_neg hab, hnil a b hab]
+
+example : forRange 5 2 10 = [] ∧ forRange (-2) 1 10 = [-2, -1, 0] := by decide
+
 end Konst.Props.C09
